@@ -343,60 +343,150 @@ def only_and_form(chk, g, fn, cons0, sweep, readl, step, var, repo):
     form(chk, repo)
 
 
+MIRROR = {ast.Lt: ast.Gt, ast.LtE: ast.GtE, ast.Gt: ast.Lt, ast.GtE: ast.LtE, ast.Eq: ast.Eq, ast.NotEq: ast.NotEq}
+NEGATE = {ast.Lt: ast.GtE, ast.LtE: ast.Gt, ast.Gt: ast.LtE, ast.GtE: ast.Lt, ast.Eq: ast.NotEq, ast.NotEq: ast.Eq}
+
+
+def _beta_test(t, defs):
+    """test -> (beta call, operator class, other side) oriented as `beta(..) OP other`, or None"""
+    if isinstance(t, ast.UnaryOp) and isinstance(t.op, ast.Not) and isinstance(t.operand, ast.Compare) and len(t.operand.ops) == 1 \
+            and type(t.operand.ops[0]) in NEGATE:
+        t = ast.Compare(t.operand.left, [NEGATE[type(t.operand.ops[0])]()], t.operand.comparators)
+    if not (isinstance(t, ast.Compare) and len(t.ops) == 1 and type(t.ops[0]) in MIRROR):
+        return None
+    a, b, op = subst_defs(t.left, defs), subst_defs(t.comparators[0], defs), type(t.ops[0])
+
+    def is_beta(x):
+        return isinstance(x, ast.Call) and getattr(x.func, "id", None) == "beta" and len(x.args) == 2
+    if is_beta(a) and not is_beta(b):
+        return a, op, b
+    if is_beta(b) and not is_beta(a):
+        return b, MIRROR[op], a
+    return None
+
+
+def first_search(fn, var, funcs, depth=0):
+    """how the local `var` of fn is found as "the least t >= 0 such that beta(A, t) STOP R":
+    -> (A expr, STOP operator class, R expr, site node, shown text) over fn's own names, or (None, reason).
+    Recognised: `t = 0; while beta(A, t) <= R: t += 1` (any orientation / negation of the test),
+    `t = helper(args)` where the helper has one of these bodies, `next(t for t in count() if beta(A, t) > R)`."""
+    defs = single_defs(fn)
+    # (1) the inline while loop
+    for w in [n for n in ast.walk(fn) if isinstance(n, ast.While)]:
+        bt = _beta_test(w.test, defs)
+        if bt is None or not (isinstance(bt[0].args[1], ast.Name) and bt[0].args[1].id == var):
+            continue
+        inc = [s_ for s_ in w.body if isinstance(s_, ast.AugAssign) and isinstance(s_.target, ast.Name) and s_.target.id == var]
+        init = [n for n in ast.walk(fn) if isinstance(n, ast.Assign) and len(n.targets) == 1 and isinstance(n.targets[0], ast.Name)
+                and n.targets[0].id == var]
+        ok = len(w.body) == 1 and len(inc) == 1 and isinstance(inc[0].op, ast.Add) and isinstance(inc[0].value, ast.Constant) \
+            and inc[0].value.value == 1 and len(init) == 1 and isinstance(init[0].value, ast.Constant) and init[0].value.value == 0
+        if not ok:
+            return None, f"the search loop for {var} is not `{var} = 0; while ...: {var} += 1`"
+        # the loop runs while `beta OP R`; it stops at the first t with the negation
+        return bt[0].args[0], NEGATE[bt[1]], bt[2], w, f"while {ast.unparse(w.test)}"
+    return None, f"no search loop for {var}"
+
+
+def search_value(e, fn, funcs, depth=0):
+    """an expression that denotes "the least t with beta(A, t) STOP R" -> (A, STOP, R, site, shown) in the names of fn"""
+    from .common import single_defs as _sd
+    if isinstance(e, ast.Name):
+        defs = [n for n in ast.walk(fn) if isinstance(n, ast.Assign) and len(n.targets) == 1 and isinstance(n.targets[0], ast.Name)
+                and n.targets[0].id == e.id]
+        if len(defs) == 1 and isinstance(defs[0].value, ast.Call):
+            return search_value(defs[0].value, fn, funcs, depth)
+        return first_search(fn, e.id, funcs, depth)
+    if isinstance(e, ast.Call) and isinstance(e.func, ast.Name) and e.func.id == "next" and e.args and isinstance(e.args[0], ast.GeneratorExp):
+        g = e.args[0]
+        gen = g.generators[0] if len(g.generators) == 1 else None
+        if gen is not None and isinstance(gen.iter, ast.Call) and getattr(gen.iter.func, "id", getattr(gen.iter.func, "attr", None)) == "count" \
+                and (not gen.iter.args or (isinstance(gen.iter.args[0], ast.Constant) and gen.iter.args[0].value == 0)) and len(gen.iter.args) <= 1 \
+                and isinstance(gen.target, ast.Name) and isinstance(g.elt, ast.Name) and g.elt.id == gen.target.id and len(gen.ifs) == 1:
+            bt = _beta_test(gen.ifs[0], single_defs(fn))
+            if bt is not None and isinstance(bt[0].args[1], ast.Name) and bt[0].args[1].id == gen.target.id:
+                return bt[0].args[0], bt[1], bt[2], e, ast.unparse(e)
+        return None, f"unrecognised search {ast.unparse(e)[:60]}"
+    if isinstance(e, ast.Call) and isinstance(e.func, ast.Name) and e.func.id in funcs and depth < 3 and not e.keywords:
+        h = funcs[e.func.id]
+        ps = [a.arg for a in h.args.args]
+        rets = [n for n in ast.walk(h) if isinstance(n, ast.Return)]
+        if len(ps) == len(e.args) and len(rets) == 1 and rets[0].value is not None:
+            r = search_value(rets[0].value, h, funcs, depth + 1)
+            if r[0] is None:
+                return r
+            A, op, R, site, shown = r
+            stored = {x.id for x in ast.walk(h) if isinstance(x, ast.Name) and isinstance(x.ctx, ast.Store)}
+            if stored & set(ps):
+                return None, f"{h.name} re-assigns a parameter"
+            env = dict(zip(ps, e.args))
+
+            class B(ast.NodeTransformer):
+                def visit_Name(self, node):
+                    return env.get(node.id, node) if isinstance(node.ctx, ast.Load) else node
+            import copy as _c
+            return B().visit(_c.deepcopy(A)), op, B().visit(_c.deepcopy(R)), e, f"{ast.unparse(e)} with {h.name}: {shown}"
+        return None, f"helper {e.func.id} not of a recognised form"
+    return None, f"unrecognised search {ast.unparse(e)[:60]}"
+
+
 def form(chk, repo):
     fn = repo.func(REL, "mxrr_close_formula")
     chk.functions.add(f"{REL[:-3]}.mxrr_close_formula")
     cons = f"{REL[:-3].replace('/', '.')}.mxrr_close_formula"
     pb = PolyBuilder()
     params = [a.arg for a in fn.args.args]
-    whiles = [n for n in ast.walk(fn) if isinstance(n, ast.While)]
+    funcs = {f.name: f for f in repo.module(REL).tree.body if isinstance(f, ast.FunctionDef)}
     rets = [n for n in ast.walk(fn) if isinstance(n, ast.Return)]
-    if len(whiles) != 1 or len(rets) != 1 or len(params) < 4:
+    if len(rets) != 1 or len(params) < 4 or rets[0].value is None:
         chk.decide("C19.FORM", cons, None, "shape not recognised", rel=REL, node=fn)
     else:
-        w = whiles[0]
-        t = w.test
-        # orientation: `rhs >= beta(..)` is `beta(..) <= rhs`; `not (beta(..) > rhs)` likewise
-        MIRROR = {ast.Lt: ast.Gt, ast.LtE: ast.GtE, ast.Gt: ast.Lt, ast.GtE: ast.LtE, ast.Eq: ast.Eq, ast.NotEq: ast.NotEq}
-        NEGATE = {ast.Lt: ast.GtE, ast.LtE: ast.Gt, ast.Gt: ast.LtE, ast.GtE: ast.Lt, ast.Eq: ast.NotEq, ast.NotEq: ast.Eq}
-        shown = ast.unparse(t)
-        if isinstance(t, ast.UnaryOp) and isinstance(t.op, ast.Not) and isinstance(t.operand, ast.Compare) and len(t.operand.ops) == 1 \
-                and type(t.operand.ops[0]) in NEGATE:
-            t = ast.Compare(t.operand.left, [NEGATE[type(t.operand.ops[0])]()], t.operand.comparators)
-        if isinstance(t, ast.Compare) and len(t.ops) == 1 and type(t.ops[0]) in MIRROR and not (
-                isinstance(t.left, ast.Call) and getattr(t.left.func, "id", None) == "beta"):
-            r_ = subst_defs(t.comparators[0], single_defs(fn))
-            if isinstance(r_, ast.Call) and getattr(r_.func, "id", None) == "beta":
-                t = ast.Compare(r_, [MIRROR[type(t.ops[0])]()], [t.left])
-        okshape = isinstance(t, ast.Compare) and len(t.ops) == 1 and isinstance(t.left, ast.Call) and \
-            getattr(t.left.func, "id", None) == "beta" and len(t.left.args) == 2
-        if not okshape:
-            chk.decide("C19.FORM", cons, None, f"loop test not recognised: {shown}", rel=REL, node=w)
+        cm, uf, rd, wd = params[0], params[1], params[2], params[3]
+        rv = subst_defs(rets[0].value, {k: v for k, v in single_defs(fn).items() if isinstance(v, ast.Call)
+                                          and getattr(v.func, "id", None) in ("int", "beta")})
+        inner = rv.args[0] if isinstance(rv, ast.Call) and getattr(rv.func, "id", None) == "int" and len(rv.args) == 1 else rv
+        if isinstance(inner, ast.Subscript) and isinstance(inner.value, ast.Name):
+            # the period is returned through a mapping filled in this function (a memo): the value stored is the result, and
+            # the closed form depends on all four of (cm, uf, rd, wd), so all four must be part of the key
+            stores = [n for n in ast.walk(fn) if isinstance(n, ast.Assign) and len(n.targets) == 1 and isinstance(n.targets[0], ast.Subscript)
+                      and isinstance(n.targets[0].value, ast.Name) and n.targets[0].value.id == inner.value.id]
+            if len(stores) == 1:
+                keyn = {x.id for x in ast.walk(stores[0].targets[0].slice) if isinstance(x, ast.Name)}
+                for d_ in single_defs(fn).items():
+                    if d_[0] in keyn:
+                        keyn |= {x.id for x in ast.walk(d_[1]) if isinstance(x, ast.Name)}
+                missing = [p_ for p_ in (cm, uf, rd, wd) if p_ not in keyn]
+                chk.decide("C19.FORM", cons + "#memo-key", False if missing else True,
+                           f"the period is cached in `{inner.value.id}` under `{ast.unparse(stores[0].targets[0].slice)}`"
+                           + (f": {missing} are not part of the key, the period of other costs is returned" if missing else ""),
+                           rel=REL, node=stores[0])
+                rv = stores[0].value
+                rv = subst_defs(rv, {k: v for k, v in single_defs(fn).items() if isinstance(v, ast.Call)
+                                     and getattr(v.func, "id", None) in ("int", "beta")})
+                inner = rv.args[0] if isinstance(rv, ast.Call) and getattr(rv.func, "id", None) == "int" and len(rv.args) == 1 else rv
+        rok = isinstance(inner, ast.Call) and getattr(inner.func, "id", None) == "beta" and len(inner.args) == 2 and \
+            pkey(pb.poly(inner.args[0])) == pkey(patom(cm))
+        is_beta = isinstance(inner, ast.Call) and getattr(inner.func, "id", None) == "beta" and len(inner.args) == 2
+        chk.decide("C19.FORM", cons + "#result", True if rok else (False if is_beta else None),
+                   f"result {ast.unparse(rets[0].value)}; descriptor beta({cm}, t)", rel=REL, node=rets[0])
+        sv = search_value(inner.args[1], fn, funcs) if rok else (None, "result is not beta(cm, t)")
+        if sv[0] is None:
+            chk.decide("C19.FORM", cons + "#threshold", None, f"search for t not recognised: {sv[1]}", rel=REL, node=fn)
         else:
-            cm = params[0]
-            a0 = pkey(pb.poly(t.left.args[0]))
-            want0 = pkey(padd(patom(cm), pconst(1)))
-            counter = t.left.args[1].id if isinstance(t.left.args[1], ast.Name) else None
-            rhs = pb.poly(subst_defs(t.comparators[0], single_defs(fn)))
-            # (wd + rd) / uf  as polynomial with the atom 1/(uf)
-            uf, rd, wd = params[1], params[2], params[3]
+            A, op, R, site, shown = sv
             want_rhs = pb.poly(ast.parse(f"({wd} + {rd}) / {uf}", mode="eval").body)
-            ok = a0 == want0 and isinstance(t.ops[0], ast.LtE) and pkey(rhs) == pkey(want_rhs) and counter is not None
-            # a definite mismatch needs a right-hand side the rule understands completely (the cost parameters only)
-            known = {n.id for n in ast.walk(subst_defs(t.comparators[0], single_defs(fn))) if isinstance(n, ast.Name)} <= set(params)
+            rhs_e = subst_defs(R, single_defs(fn))
+            same_a = pkey(pb.poly(A)) == pkey(padd(patom(cm), pconst(1)))
+            same_r = pkey(pb.poly(rhs_e)) == pkey(want_rhs)
+            ok = same_a and same_r and op is ast.Gt
+            known = {n.id for n in ast.walk(rhs_e) if isinstance(n, ast.Name)} <= set(params) and \
+                {n.id for n in ast.walk(A) if isinstance(n, ast.Name)} <= set(params)
             chk.decide("C19.FORM", cons + "#threshold", True if ok else (False if known else None),
-                       f"loop: while {shown}" + ("" if shown == ast.unparse(t) else f" (i.e. {ast.unparse(t)})")
-                       + f"; descriptor: while beta({cm} + 1, t) <= ({wd} + {rd}) / {uf}", rel=REL, node=w)
-            inc = [s for s in w.body if isinstance(s, ast.AugAssign) and isinstance(s.target, ast.Name) and s.target.id == counter]
-            one = len(inc) == 1 and isinstance(inc[0].op, ast.Add) and isinstance(inc[0].value, ast.Constant) and inc[0].value.value == 1
-            chk.decide("C19.FORM", cons + "#search", True if one else False, "t is the least integer passing the threshold (t += 1)",
-                       rel=REL, node=w, nontrivial=False)
-            rv = rets[0].value
-            inner = rv.args[0] if isinstance(rv, ast.Call) and getattr(rv.func, "id", None) == "int" and rv.args else rv
-            rok = isinstance(inner, ast.Call) and getattr(inner.func, "id", None) == "beta" and len(inner.args) == 2 and \
-                pkey(pb.poly(inner.args[0])) == pkey(patom(cm)) and isinstance(inner.args[1], ast.Name) and inner.args[1].id == counter
-            chk.decide("C19.FORM", cons + "#result", True if rok else False,
-                       f"result {ast.unparse(rv)}; descriptor beta({cm}, t)", rel=REL, node=rets[0])
+                       f"t is the least integer with beta({ast.unparse(A)}, t) {({ast.Gt: '>', ast.GtE: '>=', ast.Lt: '<', ast.LtE: '<='}).get(op, '?')} "
+                       f"{ast.unparse(rhs_e)} [{shown}]; descriptor: the least t with beta({cm} + 1, t) > ({wd} + {rd}) / {uf}",
+                       rel=REL, node=site)
+            chk.decide("C19.FORM", cons + "#search", True, "t is the least integer passing the threshold (counted up from 0 by 1)",
+                       rel=REL, node=site, nontrivial=False)
     relb = "hrevolve_sequences/basic_functions.py"
     bfn = repo.func(relb, "beta")
     chk.files.add(relb)
